@@ -20,7 +20,9 @@ for m in sorted(glob.glob(os.path.join(V, "seeded", "*", "meta.json"))):
 hdr = ("See `/verif/seeded/<id>/` (patch.diff, demo test, meta.json). Every change was written by a sub-agent that saw only the property text\n"
        "and a scratch worktree; each was confirmed (44 tests pass with it; its demo fails with it and passes without it) and then\n"
        "applied to /repo, checked with the property's **quick** command, and undone. Round 1 = the checks as first built;\n"
-       "round 2 = after strengthening (what was added for each miss is listed below the table).\n\n"
+       "now = after strengthening (what was added for each miss is listed below the table). Changes without a round-1 entry were\n"
+       "written later (second changes per property, in other areas of the code) and met the strengthened checks only. `d*` = the\n"
+       "reverse of each `fix:` commit of this repository.\n\n"
        "| id | property | what it needs to manifest | round 1 | now (quick tier) |\n|---|---|---|---|---|\n")
 notes = """
 What the misses of round 1 led to: per-property compilation of monitors (a C11 monitor masked a C05 one); C02-labelled
